@@ -101,7 +101,16 @@ def _attached_list(e: ast.AST) -> Optional[Tuple[str, str]]:
 def tail_descriptor(rows: List[codec.WRow], fn: Optional[ast.FunctionDef] = None) -> Dict[str, Any]:
     from ..packed import subst_locals
     d: Dict[str, Any] = {"order": []}
+    slot_present = {canon_text("module is not None"), canon_text("not (module is None)"), canon_text("module"),
+                    canon_text("self.module is not None"), canon_text("M is not None")}
+    slot_empty = {canon_text("module is None"), canon_text("not module"), canon_text("not (module is not None)")}
+
+    def tail_guards(gs):
+        return [g for g in gs if canon_text(g) not in slot_present]
     for r in rows:
+        # rows on the empty-slot path (`if module is None: yield SEND`) are not part of a module's tail
+        if any(canon_text(g) in slot_empty for g in r.guards):
+            continue
         if fn is not None and r.kind == "chunk" and r.cid == "CMID" and r.payload_expr is not None:
             from ..packed import fuse_comprehensions
             r.payload_expr = fuse_comprehensions(subst_locals(fn, r.payload_expr))
@@ -121,7 +130,7 @@ def tail_descriptor(rows: List[codec.WRow], fn: Optional[ast.FunctionDef] = None
                     d["cval_var"] = loop.split(" in ", 1)[0][4:]
                 except (IndexError, SyntaxError):
                     d["cval_list"] = None
-                d["cval_extra_guards"] = [_norm_recv(g) for g in r.guards if g not in ("module is not None",)]
+                d["cval_extra_guards"] = [_norm_recv(g) for g in tail_guards(r.guards)]
             elif r.cid == "CMID":
                 d["cmid_list"] = _attached_list(r.payload_expr)
                 d["cmid_elem"] = None
@@ -133,10 +142,10 @@ def tail_descriptor(rows: List[codec.WRow], fn: Optional[ast.FunctionDef] = None
             elif r.cid == "CHNK":
                 d["chnk_fmt"] = p.fmt.show() if p.fmt else None
                 d["chnk_src"] = _norm_recv(norm(p.args[0])) if p.args else None
-                d["chnk_guard"] = [canon_text(_norm_recv(g)) for g in r.guards if g not in ("module is not None",)]
+                d["chnk_guard"] = [canon_text(_norm_recv(g)) for g in tail_guards(r.guards)]
         elif r.kind == "delegate" and "specialized_iff_chunks" in r.delegate:
             d["order"].append("SPECIAL")
-            d["special_guard"] = [canon_text(_norm_recv(g)) for g in r.guards if g not in ("module is not None",)]
+            d["special_guard"] = [canon_text(_norm_recv(g)) for g in tail_guards(r.guards)]
     return d
 
 
